@@ -309,21 +309,23 @@ P["C15"] = {
 }
 P["C16"] = {
     "level_text": "Proof (loop-free, full domain) that every IPv4, IPv6 and either-family address - all address bits, ports, flow labels, scope ids - survives into_storage -> init with the length the kernel reports, and that as_ptr/as_mut_ptr cover exactly the family's struct. Unix-domain path names, abstract names (incl. embedded NULs) and the unnamed address round-trip with the kernel-reported lengths for names up to 4 bytes.",
-    "level_note": "Unix names bounded at 4 bytes (the real maximum is 107/108): std's own sockaddr_un code dominates the cost. KNOWN FINDING F8: as_ptr always passes sizeof(sockaddr_un), so abstract names are bound/connected padded to 107 bytes (kernel semantics assumed: abstract names are length-delimited).",
+    "level_note": "Unix names bounded at 4 bytes (the real maximum is 107/108): std's own sockaddr_un code dominates the cost; a 106/107-byte harness was tried and CBMC does not finish (seed n16, which only shows for names >= 106 bytes, is therefore missed - DESIGN.md section 7). F8 (as_ptr always passed sizeof(sockaddr_un): abstract names padded to 107 bytes, unnamed passed as an abstract name) and F14 (kernel-reported length 0 for a datagram from an unbound socket underflowed the path length: SIGSEGV in release builds) were found here, reproduced on the real kernel (findings/F8, findings/F14) and fixed in /repo.",
     "functions": [
-        {"file": "src/net.rs", "fn": r"unsafe fn init\(storage: MaybeUninit<Self::Storage>, length: u32\) -> Self \{\n        debug_assert!\(length as usize >= size_of::<libc::sa_family_t>\(\)\);\n        let family = unsafe \{ ptr::addr_of"},
+        {"file": "src/net.rs", "fn": r"unsafe fn init\(storage: MaybeUninit<Self::Storage>, length: u32\) -> Self \{\n        if length == 0 \{"},
+        {"file": "src/net.rs", "fn": r"fn into_storage\(self\) -> Self::Storage \{\n        let mut storage = libc::sockaddr_un \{"},
     ],
-    "trusted_base": [KANIBUG, "lengths reported by Linux for AF_UNIX addresses: offsetof(sun_path)+strlen+1 (path), +1+n (abstract), 2 (unnamed)"],
+    "trusted_base": [KANIBUG, "lengths reported by Linux for AF_UNIX addresses: offsetof(sun_path)+strlen+1 (path), +1+n (abstract), 2 (unnamed; 0 when recvmsg has no source address)"],
     "assumptions": [],
     "obligations": [
         K("c16.v4", "net_mod.rs", NA + "c16_v4", "SocketAddrV4: init(into_storage(a), sizeof(sockaddr_in)) == a for all ip/port; as_ptr/as_mut_ptr == (storage, sizeof(sockaddr_in))", ["net::<impl SocketAddress for SocketAddrV4>"]),
         K("c16.v6", "net_mod.rs", NA + "c16_v6", "SocketAddrV6 likewise incl. flowinfo and scope id", ["net::<impl SocketAddress for SocketAddrV6>"]),
         K("c16.either", "net_mod.rs", NA + "c16_either", "SocketAddr: v4 through the v6-sized storage; as_ptr length is the address' own family size", ["net::<impl SocketAddress for SocketAddr>"]),
-        K("c16.unix.path", "net_mod.rs", NA + "c16_unix_path", "Unix path name: init(into_storage(a), offsetof+strlen+1) == a, and with the length excluding the NUL", ["net::<impl SocketAddress for unix::net::SocketAddr>::init", "::into_storage"], bounded="name length <= 4", tier="thorough"),
+        K("c16.unix.path", "net_mod.rs", NA + "c16_unix_path", "Unix path name: init(into_storage(a), offsetof+strlen+1) == a, and with the length excluding the NUL", ["net::<impl SocketAddress for unix::net::SocketAddr>::init", "::into_storage"], bounded="name length <= 4"),
         K("c16.unix.path_len", "net_mod.rs", NA + "c16_unix_path_len", "Unix path name: as_ptr covers the name and its terminator inside the structure; storage NUL-terminated", ["net::<impl SocketAddress for unix::net::SocketAddr>::as_ptr", "::into_storage"], bounded="name length <= 4"),
-        K("c16.unix.abstract", "net_mod.rs", NA + "c16_unix_abstract", "Unix abstract name (any bytes): init(into_storage(a), offsetof+1+n) == a", ["net::<impl SocketAddress for unix::net::SocketAddr>::init"], bounded="name length <= 4", tier="thorough"),
-        K("c16.unix.unnamed", "net_mod.rs", NA + "c16_unix_unnamed", "unnamed address round-trips with length 2", ["net::<impl SocketAddress for unix::net::SocketAddr>::init"]),
-        K("c16.unix.abstract_len", "net_mod.rs", NA + "c16_unix_abstract_len", "length passed to the kernel for an abstract name is offsetof(sun_path)+1+n  [KNOWN FINDING F8]", ["net::<impl SocketAddress for unix::net::SocketAddr>::as_ptr"], bounded="name length <= 4"),
+        K("c16.unix.abstract", "net_mod.rs", NA + "c16_unix_abstract", "Unix abstract name (any bytes): init(into_storage(a), offsetof+1+n) == a", ["net::<impl SocketAddress for unix::net::SocketAddr>::init"], bounded="name length <= 4"),
+        K("c16.unix.unnamed", "net_mod.rs", NA + "c16_unix_unnamed", "unnamed address: length passed to the kernel is sizeof(sa_family_t); round-trips with the kernel's length 2", ["net::<impl SocketAddress for unix::net::SocketAddr>::init"]),
+        K("c16.unix.unnamed_len0", "net_mod.rs", NA + "c16_unix_unnamed_len0", "kernel-reported length 0 (datagram from an unbound socket, nothing written) decodes to the unnamed address; receive capacity is one whole sockaddr_un inside the storage", ["net::<impl SocketAddress for unix::net::SocketAddr>::init", "::as_mut_ptr"]),
+        K("c16.unix.abstract_len", "net_mod.rs", NA + "c16_unix_abstract_len", "length passed to the kernel for an abstract name is offsetof(sun_path)+1+n and the covered bytes are NUL + the name", ["net::<impl SocketAddress for unix::net::SocketAddr>::as_ptr"], bounded="name length <= 4"),
     ],
 }
 
@@ -402,7 +404,7 @@ FS = "io_uring::fs::verif_fs::"
 PR = "io_uring::process::verif_process::"
 P["C13"] = {
     "level_text": "Proof (loop-free, full argument domain) that every request encoder produces exactly the submission entry the io_uring ABI defines for the corresponding system call - opcode, descriptor, offset/address/length/flag fields from the right arguments, every other byte zero, direct-descriptor slot allocation exactly when a direct descriptor is requested, O_CLOEXEC/SOCK_CLOEXEC for regular ones, IOSQE_FIXED_FILE exactly on direct descriptors - and that every pointer placed in an entry (buffers, iovec arrays, msghdr, address storage, length words, stat/siginfo/option out-buffers, path strings) points into the operation's boxed Resources (C01); decoders return the counts/addresses/option values/descriptors the kernel wrote; builder settings take effect exactly until the first poll.",
-    "level_note": "Equality with the kernel's behaviour for each opcode is the assumed io_uring ABI (written out in the harnesses, from io_uring_enter(2) and the kernel uapi header). Generic encoders are instantiated with an instrumented buffer with symbolic pointer/length, SocketAddrV4 / NoAddress addresses, 2 vectored buffers, KeepAlive as the representative socket option. Not under contract: StatOp (uses a `c\"\"` literal Kani 0.68 cannot compile), PollableOp (closure inside poll_next), recv_from single-buffer variant (same code as the vectored one), the synchronous fallbacks (pipe2, getsockname, getsockopt).",
+    "level_note": "Equality with the kernel's behaviour for each opcode is the assumed io_uring ABI (written out in the harnesses, from io_uring_enter(2) and the kernel uapi header). Generic encoders are instantiated with an instrumented buffer with symbolic pointer/length, SocketAddrV4 / NoAddress addresses, 2 vectored buffers, KeepAlive as the representative socket option. Not under contract: StatOp (uses a `c\"\"` literal Kani 0.68 cannot compile), PollableOp (closure inside poll_next), recv_from single-buffer variant (same code as the vectored one), the synchronous fallbacks (pipe2, getsockname, getsockopt). The decoders of returned socket addresses are the C16 obligations, shared here (c16.v4/v6/either/unix.*).",
     "functions": [
         {"file": "src/io_uring/io.rs", "fn": r"pub\(crate\) fn close_file_fd\("},
         {"file": "src/io_uring/net.rs", "fn": r"^fn fill_recvmsg_submission<A: SocketAddress>\("},
@@ -438,7 +440,7 @@ P["C13"] = {
         K("c13.builder_gate", "op.rs", O + "c13_builder_gate", "args_mut/resources_mut are Some exactly while NotStarted", ["io_uring::op::State::args_mut", "io_uring::op::State::resources_mut"]),
         K("c13.fd_target_flags", "op.rs", O + "c13_fd_target_flags", "a request on an AsyncFd carries IOSQE_FIXED_FILE exactly for direct descriptors, on top of the encoder's output and the user_data", ["io_uring::op::<impl OpTarget for AsyncFd>::set_flags", "io_uring::fd::Kind::use_flags"]),
         K("op.poll.not_started", "op.rs", O + "poll_not_started", "the queued entry is exactly the encoder's output (no field lost or added)", OPFN),
-    ],
+    ] + [dict(o) for o in P["C16"]["obligations"] if o["id"] in ("c16.v4", "c16.v6", "c16.either", "c16.unix.unnamed", "c16.unix.unnamed_len0", "c16.unix.abstract_len", "c16.unix.path_len")],
 }
 
 def main():
